@@ -46,6 +46,9 @@ def cases(prop, tier, seed):
                     b = 1
                 out.append(dict(kind="query", cls=name, dseed=int(rs.randint(1 << 30)), n=n, nl=min(nl, n - 1),
                                 dup=dup, mode=mode, b=b, sseed=int(rs.randint(0, 50)), key=[name, n, nl, dup, mode, b, t]))
+        # a structured case (independent of the seed) behind the recorded finding KF-C02-labeled-index-candidates-others
+        out.append({"kind": "query", "cls": "Badge", "dseed": 195584138, "n": 9, "nl": 1, "dup": "grid", "mode": "idx", "b": 2, "sseed": 13,
+                    "key": ["Badge", 9, 1, "grid", "idx", 2, "labeled-candidates"]})
         return out
     if prop == "C14":
         per = 10 if tier == "quick" else 80
